@@ -64,11 +64,38 @@ pub fn gen_bits(rng: &mut Rng, n: usize) -> Vec<u8> {
 pub fn gen_bytes(rng: &mut Rng, n: usize) -> Vec<u8> {
     (0..n).map(|_| rng.next() as u8).collect()
 }
+/// C15: when set, float generators mix in NaN, infinities, denormals and huge values.
+pub static SPECIALS: std::sync::atomic::AtomicBool = std::sync::atomic::AtomicBool::new(false);
+
+pub fn special_f32(rng: &mut Rng) -> f32 {
+    match rng.below(14) {
+        0 => f32::NAN,
+        1 => f32::INFINITY,
+        2 => f32::NEG_INFINITY,
+        3 => f32::MAX,
+        4 => f32::MIN,
+        5 => f32::MIN_POSITIVE,
+        6 => 1e-45,
+        7 => -0.0,
+        8 => 0.0,
+        9 => 1e30,
+        10 => -1e30,
+        11 => f32::from_bits(rng.next() as u32),
+        _ => rng.f32_unit(),
+    }
+}
+fn one_f32(rng: &mut Rng) -> f32 {
+    if SPECIALS.load(std::sync::atomic::Ordering::Relaxed) && rng.chance(1, 3) {
+        special_f32(rng)
+    } else {
+        rng.f32_unit()
+    }
+}
 pub fn gen_f32(rng: &mut Rng, n: usize) -> Vec<f32> {
-    (0..n).map(|_| rng.f32_unit()).collect()
+    (0..n).map(|_| one_f32(rng)).collect()
 }
 pub fn gen_c32(rng: &mut Rng, n: usize) -> Vec<C32> {
-    (0..n).map(|_| C32::new(rng.f32_unit(), rng.f32_unit())).collect()
+    (0..n).map(|_| C32::new(one_f32(rng), one_f32(rng))).collect()
 }
 /// Slowly varying signal with zero crossings (for clock recovery blocks).
 pub fn gen_wave(rng: &mut Rng, n: usize, sps: f32) -> Vec<f32> {
@@ -83,6 +110,10 @@ pub fn gen_wave(rng: &mut Rng, n: usize, sps: f32) -> Vec<f32> {
             left += sps * (1.0 + 0.02 * rng.f32_unit());
         }
         left -= 1.0;
+        if SPECIALS.load(std::sync::atomic::Ordering::Relaxed) && rng.chance(1, 20) {
+            v.push(special_f32(rng));
+            continue;
+        }
         v.push(level * (0.8 + 0.1 * rng.f32_unit()));
     }
     v
